@@ -111,12 +111,17 @@ func writeDuration(f io.ReadWriteSeeker, d time.Duration) error {
 		return err
 	}
 
-	_, err = amp4.Marshal(f, &mvhd, amp4.Context{})
+	// write the box with a single call.
+	// amp4.Marshal() writes byte by byte: if the server is stopped in the middle,
+	// the duration is left partially written.
+	var mvhdBuf bytes.Buffer
+	_, err = amp4.Marshal(&mvhdBuf, &mvhd, amp4.Context{})
 	if err != nil {
 		return err
 	}
 
-	return nil
+	_, err = f.Write(mvhdBuf.Bytes())
+	return err
 }
 
 type formatFMP4Segment struct {
